@@ -6,6 +6,7 @@ from . import ivl
 from .lts import SELF, lx, EL, action_index, RT
 from .models import NONE, pure
 from .segx import norm_path, project, Engine, Path, Cut
+from .rules_runtime import SAVED
 from .models import StdModels, some
 
 STD_ITER = pure("clone", (EL("__iter"),))
@@ -61,15 +62,15 @@ class View(object):
             return ("keep",)
         if v[0] == "adt" and v[2] == "Some":
             t = v[4][0][1]
-            f = project(t, "2")
+            f = project(t, SAVED["action"])
             k = action_index(self.exp, f)
             if k is None:
                 raise Mismatch("tv:save-fn", "set_accepting_state stores something that is not "
                                "one of this lexer's action wrappers", repr(f)[:200])
             # the saved snapshot must be taken at the current position
-            ok = (project(t, "0") == EL("current_match_start")
-                  and project(t, "3") == EL("current_match_end")
-                  and project(t, "1") == pure("clone", (EL("__iter"),)))
+            ok = (project(t, SAVED["start"]) == EL("current_match_start")
+                  and project(t, SAVED["end"]) == EL("current_match_end")
+                  and project(t, SAVED["iter"]) == pure("clone", (EL("__iter"),)))
             if not ok:
                 raise Mismatch("tv:save-snapshot", "the saved match is not (current start, clone of "
                                "the input, action, current end)", repr(t)[:300])
